@@ -57,8 +57,8 @@ FLAVOURS = {  # (quick, thorough)
     "C18": (["plain"], ["plain"]),
 }
 SEEDS = {  # number of scenarios (each runs schedulesPer(prop, tier) schedules): (quick, thorough)
-    "C02": (10000, 400000), "C03": (8000, 200000), "C09": (10000, 400000), "C12": (600, 20000), "C13": (20000, 600000),
-    "C15": (1500, 60000), "C18": (10000, 400000),
+    "C02": (10000, 200000), "C03": (8000, 100000), "C09": (10000, 200000), "C12": (600, 6000), "C13": (20000, 400000),
+    "C15": (1500, 30000), "C18": (10000, 200000),
 }
 
 def crash_site(c):
@@ -464,7 +464,7 @@ def main():
     deadline = t_start + limit
     for fl in flavours:
         nworkers = args.workers or (16 if fl == "plain" else 12)
-        n = nseeds if fl == flavours[0] else max(50, nseeds // 4)
+        n = nseeds if fl == flavours[0] else max(50, nseeds // 16)
         run_batch(fl, prop, tier, base, n, nworkers, results, crashes, fw_errors, deadline)
     vg_runs = 0
     if prop == "C15" and shutil.which("valgrind"):
